@@ -92,6 +92,9 @@ D = {
  ('Resolver.Resolve','slice:encodedKey[1:]'):T('encodedKey has at least one character here'),
  ('Resolver.Resolve','discard:io.ReadAll(reader)'):T('reading from a bytes.Reader does not fail'),
  ('Resolver.Resolve','discard:unmarshalEC(elliptic.P521(), -1, mcBytes)'):T('expectedLen -1: unmarshalEC cannot return an error; invalid points give nil coordinates, which NewVerificationMethod rejects (data vmOk)'),
+
+ ('Resolver.Resolve','lencheck:keyLength != 32'):T('exact length of X25519 / Ed25519 keys (model: DidKey.codecCheck keyLength != 32); a longer key would be handed to crypto/ed25519, which panics on it'),
+ ('unmarshalEC','lencheck:expectedLen != -1'):T('P-521 is decoded without a length check'),
  ('unmarshalEC','lencheck:len(pubKeyBytes) != expectedLen'):T('length error (model: keyLength tests)'),
 
  ('Parse','lencheck:len(message.Signatures()) != 1'):T('guard of Signatures()[0] (model: nSigs != 1)'),
